@@ -618,7 +618,9 @@ func (s *keystore) Close() error {
 	var err error
 	select {
 	case <-s.close:
-		// Already closed
+		// A Close call is under way or over: like it, return only once the
+		// worker has exited.
+		<-s.done
 	default:
 		close(s.close)
 		<-s.done // Wait for worker to exit
